@@ -121,6 +121,13 @@ def check(ctx):
     # histories: the same file several times, and after every other file
     probe = ['brace-types.po']
     configs.append(('repeat', probe * 3, 2, []))
+    # the same path named more than once, sequentially and with worker processes
+    for j in (2, 4):
+        configs.append(('repeat j=%d' % j, probe * 3, 1, ['-j', str(j)]))
+        for k in range(2 if ctx.quick() else 8):
+            a, b = rng.sample(files, 2)
+            configs.append(('a b a (%d) j=%d' % (k, j), [a, b, a], 0, ['-j', str(j)]))
+            configs.append(('a a b b a (%d) j=%d' % (k, j), [a, a, b, b, a], 3, ['-j', str(j)]))
     for pr in (['brace-types.po'], ['xgettext-template.pot']):
         for f in rng.sample(files, 6 if ctx.quick() else 30) + ['brace-types.po', 'xgettext-template.pot']:
             configs.append(('history %s before probe %s' % (f, pr[0]), [f] + pr, 3, []))
@@ -165,7 +172,7 @@ def check(ctx):
         checker_cmd='tools/build.sh (coqc on Props/C03.v incl. vm_compute over the regenerated set-iteration sites) then coqc Audit_C03.v',
         rule='files = the repository\'s black-box PO/POT/MO files (every 3rd in quick) + catalogs exercising set/dict iteration + generated hostile catalogs; baseline = each file alone '
              '(-j1, PYTHONHASHSEED=0); configurations: all files under PYTHONHASHSEED in {0,1,2,3,random}; -j in {2,3,16}; random permutations and prefixes with -j 1/4; '
-             'repeated file; probe file after other files (history); -l pl under different seeds and -j. Each run must equal the concatenation of the baselines. '
+             'repeated files (also under -j 2/4: a b a, a a b b a); probe file after other files (history); -l pl under different seeds and -j. Each run must equal the concatenation of the baselines. '
              'non-trivial = a configuration run, or a file whose baseline output is non-empty',
         explanation='Model-level theorems (parallel = sequential for every completion order; multi-file = concatenation; no order-sensitive set iteration in the regenerated ast table) '
                     'plus exploration of hash seeds, argument orders, prefixes/histories and job counts through the real CLI. Partial: real worker scheduling and process state are explored, not modelled.')
